@@ -1506,4 +1506,141 @@ theorem callback_iff_value_changed (m : Mode) (env : Env) (s : S) (v : J) :
   simp only [Bool.not_eq_true', ne_eq]
   rw [← Bool.not_eq_true, jeq_iff_eq]
 
+
+
+/-! ### located, as far as a mode consumes the trace -/
+
+mutual
+/-- the part of the event that a visitor with stop policy `π` really executes is located in `v` -/
+def Ev.locP (π : Policy) (v : J) : Ev → Prop
+  | .fail e _ => Loc v e
+  | .child tok sub => (runL π sub).1 = [] ∨ ∃ x, resolve1 v tok = some x ∧ locPL π x sub
+  | .comp _ e _ => Loc v e
+/-- … of a level: every event up to (and including) the one after which the level returns -/
+def locPL (π : Policy) (v : J) : List Ev → Prop
+  | [] => True
+  | e :: es => e.locP π v ∧ ((e.run π).2 = false → locPL π v es)
+end
+
+theorem runL_located (π : Policy) :
+    (∀ ev : Ev, ∀ v, ev.locP π v → ∀ e ∈ (ev.run π).1, Loc v e) ∧
+    (∀ _ts : List (List Ev), True) ∧
+    (∀ t : List Ev, ∀ v, locPL π v t → ∀ e ∈ (runL π t).1, Loc v e) := by
+  refine Ev.passes.mutual_induct
+    (motive_1 := fun ev => ∀ v, ev.locP π v → ∀ e ∈ (ev.run π).1, Loc v e)
+    (motive_2 := fun _ => True)
+    (motive_3 := fun t => ∀ v, locPL π v t → ∀ e ∈ (runL π t).1, Loc v e)
+    ?f ?ch ?co ?nil ?cons ?nil2 ?cons2
+  case f =>
+    intro e fatal v h e' he'
+    simp only [Ev.run, List.mem_singleton] at he'
+    subst he'; exact h
+  case ch =>
+    intro tok sub ih v h e he
+    simp only [Ev.run, List.mem_map] at he
+    obtain ⟨e0, he0, rfl⟩ := he
+    simp only [Ev.locP] at h
+    rcases h with h | ⟨x, hx, hsub⟩
+    · rw [h] at he0; simp at he0
+    · exact loc_mark hx (ih x hsub e0 he0)
+  case co =>
+    intro k e subs _ v h e' he'
+    simp only [Ev.run] at he'
+    simp only [Ev.locP] at h
+    split at he' <;> simp at he'
+    subst he'; exact h
+  case nil => intro v _ e he; simp [runL] at he
+  case cons =>
+    intro ev es ih1 ih2 v h e he
+    simp only [locPL] at h
+    simp only [runL] at he
+    split at he
+    · exact ih1 v h.1 e he
+    · rename_i hs
+      simp only [Bool.not_eq_true] at hs
+      rcases List.mem_append.mp he with he | he
+      · exact ih1 v h.1 e he
+      · exact ih2 v (h.2 hs) e he
+  case nil2 => trivial
+  case cons2 => intros; trivial
+
+/-- the multi-error fold IS the general fold under the MultiErrors policy -/
+theorem collect_eq_run :
+    (∀ ev : Ev, ev.collect = ev.run Mode.multi.policy) ∧
+    (∀ ts : List (List Ev), collectCount ts = runCount Mode.multi.policy ts) ∧
+    (∀ t : List Ev, collectL t = (runL Mode.multi.policy t).1) := by
+  refine Ev.passes.mutual_induct
+    (motive_1 := fun ev => ev.collect = ev.run Mode.multi.policy)
+    (motive_2 := fun ts => collectCount ts = runCount Mode.multi.policy ts)
+    (motive_3 := fun t => collectL t = (runL Mode.multi.policy t).1)
+    ?f ?ch ?co ?nil ?cons ?nil2 ?cons2
+  case f => intro e fatal; simp [Ev.collect, Ev.run, Mode.policy]
+  case ch => intro tok sub ih; simp [Ev.collect, Ev.run, Mode.policy, ih]
+  case co => intro k e subs ih; simp only [Ev.collect, Ev.run, ih]
+  case nil => simp [collectL, runL]
+  case cons =>
+    intro e es ih1 ih2
+    simp only [collectL, runL, ih1, ih2]
+    split <;> rfl
+  case nil2 => simp [collectCount, runCount]
+  case cons2 => intro t ts ih1 ih2; simp only [collectCount, runCount, ih1, ih2]
+
+/-- the default-mode fold is the general fold under the "every failure returns" policy -/
+theorem first_eq_run :
+    (∀ ev : Ev, ev.firstErr.toList = (ev.run Mode.dflt.policy).1 ∧ (ev.run Mode.dflt.policy).2 = ev.firstErr.isSome) ∧
+    (∀ ts : List (List Ev), firstCount ts = runCount Mode.dflt.policy ts) ∧
+    (∀ t : List Ev, (firstErrL t).toList = (runL Mode.dflt.policy t).1) := by
+  refine Ev.passes.mutual_induct
+    (motive_1 := fun ev => ev.firstErr.toList = (ev.run Mode.dflt.policy).1 ∧ (ev.run Mode.dflt.policy).2 = ev.firstErr.isSome)
+    (motive_2 := fun ts => firstCount ts = runCount Mode.dflt.policy ts)
+    (motive_3 := fun t => (firstErrL t).toList = (runL Mode.dflt.policy t).1)
+    ?f ?ch ?co ?nil ?cons ?nil2 ?cons2
+  case f => intro e fatal; simp [Ev.firstErr, Ev.run, Mode.policy]
+  case ch =>
+    intro tok sub ih
+    simp only [Ev.firstErr, Ev.run, ← ih]
+    cases firstErrL sub <;> simp [Mode.policy]
+  case co =>
+    intro k e subs ih
+    simp only [Ev.firstErr, Ev.run, ih]
+    split <;> simp
+  case nil => simp [firstErrL, runL]
+  case cons =>
+    intro e es ih1 ih2
+    simp only [firstErrL, runL, ih1.2, ← ih2]
+    cases hf : e.firstErr with
+    | none => simp [← ih1.1, hf]
+    | some x => simp [← ih1.1, hf]
+  case nil2 => simp [firstCount, runCount]
+  case cons2 =>
+    intro t ts ih1 ih2
+    simp only [firstCount, runCount, ← ih1, ih2]
+    cases firstErrL t <;> simp
+
+/-- **located as far as consumed ⇒ every reported error is located**, in every mode -/
+theorem pointers_located_consumed (m : Mode) (v : J) (t : List Ev) (h : locPL m.policy v t) :
+    ∀ e ∈ (report m t).errs, Loc v e := by
+  have hr := (runL_located m.policy).2.2 t v h
+  cases m with
+  | dflt =>
+    simp only [report]
+    have := first_eq_run.2.2 t
+    cases hf : firstErrL t with
+    | none => simp [Res.errs]
+    | some e0 =>
+      simp only [Res.errs, List.mem_singleton]
+      intro e he; subst he
+      exact hr e (by rw [← this, hf]; simp)
+  | failfast => simp only [report]; cases firstErrL t <;> simp [Res.errs]
+  | multi =>
+    simp only [report]
+    cases hc : collectL t with
+    | nil => simp [Res.errs]
+    | cons a b =>
+      simp only [Res.errs]
+      intro e he
+      exact hr e (by rw [← collect_eq_run.2.2 t, hc]; exact he)
+  | ffmulti => simp only [report]; cases (runL Mode.ffmulti.policy t).1 <;> simp [Res.errs]
+
+
 end KinModel.Schema
